@@ -87,32 +87,61 @@ def run(chk):
     r1.require(ok_ret, f"{ds.key}|returns-kept-reindexed", ds.where(),
                "days covered for half or less must come back missing: return dataset[coverage > 0.5].reindex(dataset.index)[['value']]")
     r1.require(dpc.has(f"{D} = as_freq({D}, 'D', include_coverage=True)", bind=False), f"{ds.key}|daily-cumulative", ds.where(), "sub-daily usage must be aggregated with as_freq(..., 'D', include_coverage=True) (cumulative)")
-    # granularity cut points
+    # granularity cut points: compute_minimum_granularity interpreted on abstract indexes (one representative per side of every cut point)
+    import datetime as _dt
+    from engine.absint import AbsObj, ClassRef, ModuleEnv
+    from engine.pyinterp import Function, Interp, InterpRaised, Stub, StubCall, Unsupported
     cg = chk.repo.func(DPU, "compute_minimum_granularity")
-    gd = [n for n in ast.walk(cg.node) if isinstance(n, ast.Dict) and len(n.keys) == 4]
-    table = {}
-    if gd:
-        for k, v in zip(gd[0].keys, gd[0].values):
-            m = mask_terms(k)
-            table[const_str(v)] = m
-    want = {"hourly": ("atom", {("median_difference", "<", 1.0)}), "daily": ("atom", {("median_difference", "==", 1.0)}),
-            "billing_monthly": ("and", {("median_difference", ">", 1.0), ("median_difference", "<=", 35.0)}),
-            "billing_bimonthly": ("and", {("median_difference", ">", 35.0), ("median_difference", "<=", 70.0)})}
-    for g, m in want.items():
-        r1.require(table.get(g) == m, f"{cg.key}|median:{g}", cg.where(), f"compute_minimum_granularity: `{g}` must be selected by {sorted(m[1])}; found {table.get(g)}", sample={"granularity": g, "rule": sorted(m[1])})
-    ccfg = CFG(cg.node)
-    chain = {}
-    for s in ccfg.stmts():
-        if isinstance(s, ast.Assign) and unparse(s.targets[0]) == "min_granularity" and const_str(s.value):
-            conds = [(unparse(tt), pol) for tt, pol in ccfg.guards(s) if "index.freq" in unparse(tt) and "is None" not in unparse(tt)]
-            chain.setdefault(const_str(s.value), []).append(conds)
-    def has(g, txt, pol=True):
-        return any((txt, pol) in c for c in chain.get(g, []))
-    r1.require(has("hourly", "index.freq <= pd.Timedelta(hours=1)"), f"{cg.key}|freq:hourly", cg.where(), "inferred frequency <= 1 hour must be `hourly`")
-    r1.require(has("daily", "index.freq <= pd.Timedelta(days=1)") and has("daily", "index.freq <= pd.Timedelta(hours=1)", False), f"{cg.key}|freq:daily", cg.where(), "inferred frequency in (1 hour, 1 day] must be `daily`")
-    r1.require(has("billing_monthly", "index.freq <= pd.Timedelta(days=30)") and has("billing_monthly", "index.freq <= pd.Timedelta(days=1)", False), f"{cg.key}|freq:monthly", cg.where(), "inferred frequency in (1 day, 30 days] must be `billing_monthly`")
-    r1.require(has("billing_bimonthly", "index.freq <= pd.Timedelta(days=30)", False), f"{cg.key}|freq:bimonthly", cg.where(), "longer inferred frequencies must be `billing_bimonthly`")
-    r1.require(has("billing_monthly", "index.freq.n == 1") and has("billing_bimonthly", "index.freq.n == 1", False), f"{cg.key}|freq:month-offsets", cg.where(), "MonthBegin/MonthEnd with n == 1 is monthly, otherwise bi-monthly")
+
+    class _PD(Stub):
+        @staticmethod
+        def Timedelta(*a, **k):
+            if a:
+                raise Unsupported("pd.Timedelta with a positional argument")
+            return _dt.timedelta(**k)
+
+    class _Index(AbsObj):
+        def __init__(self, n, inferred):
+            super().__init__({"DatetimeIndex"}, inferred_freq=inferred, freq="unset")
+            self._n = n
+
+        def __len__(self):
+            return self._n
+
+    def _gran(index, median=None):
+        it = Interp(step_limit=20_000)
+
+        class _DC(Stub):
+            def median(self_):
+                return median
+        env = ModuleEnv(chk.repo, cg.module, it, {"pd": _PD(), "MonthEnd": ClassRef("MonthEnd"), "MonthBegin": ClassRef("MonthBegin"), "day_counts": StubCall(lambda ix: _DC())})
+        try:
+            return Function(cg.node, env, it)(index, "DEFAULT")
+        except InterpRaised as e:
+            return f"raises {e.exc_name}"
+        except Unsupported as e:
+            raise AnalysisError(f"{cg.key}: uses an operation outside the modelled subset: {e}")
+    nan = float("nan")
+    med_cases = [(0.04, "hourly"), (0.5, "hourly"), (0.99, "hourly"), (1, "daily"), (1.0, "daily"), (1.01, "billing_monthly"), (28, "billing_monthly"), (35, "billing_monthly"),
+                 (35.5, "billing_bimonthly"), (36, "billing_bimonthly"), (70, "billing_bimonthly"), (70.5, "DEFAULT"), (100, "DEFAULT"), (nan, "DEFAULT")]
+    for m, want in med_cases:
+        got = _gran(_Index(100, None), m)
+        grp = {"hourly": "median:hourly", "daily": "median:daily", "billing_monthly": "median:billing_monthly", "billing_bimonthly": "median:billing_bimonthly", "DEFAULT": "median:default"}[want]
+        r1.require(got == want, f"{cg.key}|{grp}|{m}", cg.where(), f"compute_minimum_granularity: a median spacing of {m} days (no inferable frequency) must give `{want}`; found `{got}`", sample={"median_days": m, "granularity": got})
+    td = _dt.timedelta
+    freq_cases = [(td(minutes=15), "hourly"), (td(hours=1), "hourly"), (td(hours=1, seconds=1), "daily"), (td(days=1), "daily"), (td(days=1, seconds=1), "billing_monthly"), (td(days=7), "billing_monthly"),
+                  (td(days=30), "billing_monthly"), (td(days=30, seconds=1), "billing_bimonthly"), (td(days=61), "billing_bimonthly")]
+    for f_, want in freq_cases:
+        got = _gran(_Index(100, f_))
+        grp = {"hourly": "freq:hourly", "daily": "freq:daily", "billing_monthly": "freq:monthly", "billing_bimonthly": "freq:bimonthly"}[want]
+        r1.require(got == want, f"{cg.key}|{grp}|{f_}", cg.where(), f"compute_minimum_granularity: an inferred frequency of {f_} must give `{want}`; found `{got}`", sample={"frequency": str(f_), "granularity": got})
+    for cname in ("MonthEnd", "MonthBegin"):
+        for n_, want in ((1, "billing_monthly"), (2, "billing_bimonthly"), (3, "billing_bimonthly")):
+            got = _gran(_Index(100, AbsObj({cname}, n=n_)))
+            r1.require(got == want, f"{cg.key}|freq:month-offsets|{cname}:{n_}", cg.where(), f"compute_minimum_granularity: {cname}(n={n_}) must give `{want}`; found `{got}`")
+    for n_ in (0, 1):
+        got = _gran(_Index(n_, None), 1)
+        r1.require(got == "DEFAULT", f"{cg.key}|too-short|{n_}", cg.where(), f"an index of {n_} stamp(s) has no spacing: the default granularity must be returned; found `{got}`")
 
     # ------------------------------------------------------------------ R08.2
     br = as_freq_branches(chk)
